@@ -20,6 +20,9 @@ func (prop) Run(c core.Case) core.Outcome {
 	if c.Op == "bigpe" {
 		return runBig(c)
 	}
+	if c.Op == "gap3" { // images of 17-33 MiB judged in Go (gap round 3, gap3.go)
+		return runGap3(c)
+	}
 	if c.Op == "bigsec" { // finding F-c02c-1 (bigsec.go); replay only
 		return runBigSec(c)
 	}
@@ -42,6 +45,9 @@ func (prop) Run(c core.Case) core.Outcome {
 		}
 		out.Checks = append(out.Checks, nvChecks(e)...)
 	}
+	if isAlignCase(c) { // data-alignment chains (gap round 3, gap3.go): the Go reader as a second judge
+		out.Checks = append(out.Checks, alignChecks(e)...)
+	}
 	return out
 }
 
@@ -51,11 +57,11 @@ func (prop) Gen(r *rand.Rand, tier string) []core.Case {
 		cs := append(append(append(ue.ExhaustiveCases(3), append(ue.WrapperCases(), ue.TailCases()...)...), bigCases(tier)...), ue.RandomCases(r, 20000, true)...)
 		cs = append(cs, createFvCases(r, 1500)...)
 		cs = append(append(cs, ue.NvFixedCases()...), ue.NvRandomCases(r, 3000)...)
-		return append(cs, tightenCases(r, 600)...) // round 3: tighten_me where it can succeed (tighten.go)
+		return gap3Cases(append(cs, tightenCases(r, 600)...), r, tier) // gap round 3 (gap3.go) behind round 3: tighten_me where it can succeed (tighten.go)
 	}
 	cs := append(append(append(ue.ExhaustiveCases(1), append(ue.WrapperCases(), ue.TailCases()...)...), bigCases(tier)...), ue.RandomCases(r, 400, true)...)
 	cs = append(cs, createFvCases(r, 120)...)
 	// images with NVAR stores and nvram-compact come last of all (gap round 2)
 	cs = append(append(cs, ue.NvFixedCases()...), ue.NvRandomCases(r, 250)...)
-	return append(cs, tightenCases(r, 60)...) // round 3: tighten_me where it can succeed (tighten.go), last of all
+	return gap3Cases(append(cs, tightenCases(r, 60)...), r, tier) // gap round 3 (gap3.go) behind round 3: tighten_me where it can succeed (tighten.go), last of all
 }
